@@ -328,12 +328,19 @@ class Shard(ShardCMC):
             for minishard in sorted_mini_dict:
                 minishard.close()
 
+                if len(minishard.header) == 0:
+                    # every store into this minishard failed (e.g. disk
+                    # full): it holds no chunk and gets no index
+                    continue
+
                 for b in minishard.databytearray:
                     fp.write(b)
 
                 minishard.offset = data_size
                 data_size += len(minishard.databytearray)
                 del minishard.databytearray
+            sorted_mini_dict = [minishard for minishard in sorted_mini_dict
+                                if len(minishard.header) > 0]
 
             num_slots = int(2 ** self.shard_spec.minishard_bits)
             sh_size = 0
